@@ -8,10 +8,20 @@
      nstr sst          number of strands = 1 + number of '+'
      rot_left          [x0; x1; ...] |-> [x1; ...; x0]
      relabel n k       rotate_locus n k on every entry of a pair table
-     rot_iter k        k-fold rotate_complex_once (model of the loop in ComplexS.rotate) *)
+     rot_iter k        k-fold rotate_complex_once (model of the loop in ComplexS.rotate)
+     NE seq            every strand of the sequence is non-empty (str.split semantics)
+     goodNE x          good x /\ NE (fst x): the quantifier of the property
+     rotT              rotate_complex_once as a total function (identity on error; never
+                       taken on good input, see C07_rot_iter_total)
+     tabs x            (make_strand_table (fst x), make_pair_table (snd x))
+     stepP             one forced step of rotate_complex_pt on (strand table, pair table)
+     rotations x       [x; rotT x; ...; rotT^(n-1) x],  n = nstr (snd x)
+     back n k          (n - k) mod n *)
 From Coq Require Import List NArith ZArith.
+From DSD Require Import Proofs.Assoc.
 From DSD Require Import Base.Str Base.Errors Model.ComplexUtils Model.Rotation
-  Proofs.RotLoc Proofs.RotTree Proofs.RotPairs Proofs.RotOnce Proofs.RotOrbit.
+  Proofs.RotLoc Proofs.RotTree Proofs.RotPairs Proofs.RotOnce Proofs.RotOrbit Proofs.RotStrands
+  Proofs.RotGen.
 Import ListNotations.
 
 (* rotate_complex_once never fails on a well-formed aligned complex and returns a
@@ -50,6 +60,21 @@ Theorem C07_rot_once_pairs : forall seq sst, aligned seq sst -> wf sst ->
 Proof. exact rot_once_pairs_lemma. Qed.
 Print Assumptions C07_rot_once_pairs.
 
+(* the same read pointwise: a is paired with b (resp. unpaired) in the original iff
+   rho a is paired with rho b (resp. unpaired) in the rotation, rho = rotate_locus n (-1),
+   the map reported by rotate_pairtable_loc(., 1) (see C07_rotate_loc_spec) *)
+Theorem C07_rot_once_pairs_pointwise : forall seq sst, aligned seq sst -> wf sst ->
+  exists seq' sst' T T',
+    rotate_complex_once seq sst = Ok (seq', sst') /\
+    make_pair_table cP [cD] sst = Ok T /\ make_pair_table cP [cD] sst' = Ok T' /\
+    length T' = length T /\
+    forall a b, fst a < length T ->
+      (get T a = Some (Some b) ->
+       get T' (rloc (length T) (-1) a) = Some (Some (rloc (length T) (-1) b))) /\
+      (get T a = Some None -> get T' (rloc (length T) (-1) a) = Some None).
+Proof. exact rot_once_pairs_pointwise. Qed.
+Print Assumptions C07_rot_once_pairs_pointwise.
+
 (* n rotations of an n-stranded complex restore the original *)
 Theorem C07_rot_once_order_n : forall x, good x -> rot_iter (nstr (snd x)) x = Ok x.
 Proof. exact rot_orbit. Qed.
@@ -83,3 +108,59 @@ Theorem C07_rotate_loc_spec : forall (size : nat), (0 < size)%nat ->
      = Some (Z.to_nat (fst (rotate_pairtable_loc (Z.of_nat si, Z.of_nat di) 1 size)), di)).
 Proof. exact rotate_loc_spec_lemma. Qed.
 Print Assumptions C07_rotate_loc_spec.
+
+(* iterated rotation never fails on a well-formed aligned complex *)
+Theorem C07_rot_iter_total : forall k x, good x -> rot_iter k x = Ok (Nat.iter k rotT x).
+Proof. exact rot_iter_rotT. Qed.
+Print Assumptions C07_rot_iter_total.
+
+(* rotate_complex_pt's step is the inverse relabelling: on tables ... *)
+Theorem C07_rot_pt_step_inverse_tables : forall n (st : list (list pstr)) T,
+  0 < n -> length T = n -> tab_below n T ->
+  rotate_pt_step (rot_left st) (step_tab n T) = (st, T) /\
+  step_tab n (snd (rotate_pt_step st T)) = T.
+Proof. exact pt_step_inverse_tab. Qed.
+Print Assumptions C07_rot_pt_step_inverse_tables.
+
+(* ... and on complexes: one step of rotate_complex_pt applied to the tables of the
+   rotated complex gives back the tables of the original (the two families rotate
+   in opposite directions) *)
+Theorem C07_rot_pt_step_inverse : forall x, goodNE x -> stepP (tabs (rotT x)) = tabs x.
+Proof. exact stepP_tabs. Qed.
+Print Assumptions C07_rot_pt_step_inverse.
+
+(* the constructor model accepts every complex of the quantifier (so the object-level
+   generators below are what the dispatched operations compute) *)
+Theorem C07_constructor_accepts : forall sq sst, goodNE (sq, sst) -> obj_construct sq sst = Ok tt.
+Proof. exact obj_construct_ok. Qed.
+Print Assumptions C07_constructor_accepts.
+
+(* generators without a turn count: ComplexS.rotate() yields exactly the n rotations
+   starting with the current representation ... *)
+Theorem C07_generators_obj_rotate : forall seq sst, goodNE (seq, sst) ->
+  obj_rotate seq sst None = Ok (rotations (seq, sst)).
+Proof. exact obj_rotate_spec. Qed.
+Print Assumptions C07_generators_obj_rotate.
+
+(* ... ComplexS.rotate_pt() their strand and pair tables ... *)
+Theorem C07_generators_obj_rotate_pt : forall seq sst, goodNE (seq, sst) ->
+  obj_rotate_pt seq sst None = Ok (map tabs (rotations (seq, sst))).
+Proof. exact obj_rotate_pt_spec. Qed.
+Print Assumptions C07_generators_obj_rotate_pt.
+
+(* ... rotate_complex_pt(stab, ptab) the same n table pairs in the opposite direction:
+   its k-th element belongs to the ((n - k) mod n)-th rotation ... *)
+Theorem C07_generators_rotate_complex_pt : forall x, goodNE x ->
+  let n := nstr (snd x) in
+  rotate_complex_pt n (fst (tabs x)) (snd (tabs x))
+  = map (fun k => tabs (Nat.iter (back n k) rotT x)) (List.seq 0 n).
+Proof. exact rotate_complex_pt_rotations. Qed.
+Print Assumptions C07_generators_rotate_complex_pt.
+
+(* ... and rotate_complex_db(seq, sst) the n rotations themselves, again with
+   k-th element = ((n - k) mod n)-th element of rotate() *)
+Theorem C07_generators_rotate_complex_db : forall sq sst, goodNE (sq, sst) ->
+  let n := nstr sst in
+  rotate_complex_db sq sst = Ok (map (fun k => Nat.iter (back n k) rotT (sq, sst)) (List.seq 0 n)).
+Proof. exact rotate_complex_db_spec. Qed.
+Print Assumptions C07_generators_rotate_complex_db.
